@@ -97,7 +97,9 @@ def _gen_exchange(rng, faulty: bool):
         return {"k": "resp", "status": rng.choice([301, 302, 303, 307, 308]), "headers": [["Location", rng.choice(["/next", "/loop", "/r0"])]], "body": "moved"}
     if c < 0.62:
         # (a Retry-After that is neither a number nor a date makes the wait itself fail, after the response has been taken)
-        return {"k": "resp", "status": rng.choice([429, 503, 503, 413]), "headers": [["Retry-After", str(rng.choice([0, 1, 2, 2, "soon", "-1"]))]], "body": "later", "framing": rng.choice(["cl", "cl", "chunked"])}
+        # (the error page may be large: what the library does with an unread 70 kB body before it tries again is its own business,
+        #  the slot must come back all the same)
+        return {"k": "resp", "status": rng.choice([429, 503, 503, 413]), "headers": [["Retry-After", str(rng.choice([0, 1, 2, 2, "soon", "-1"]))]], "body": rng.choice(["later", "later", {"tag": 6000}]), "framing": rng.choice(["cl", "cl", "chunked"])}
     if c < 0.70:
         return {"k": "eof"}
     if c < 0.76:
@@ -152,6 +154,8 @@ def gen_base(rng, tier: str, faulty: bool) -> dict:
     if path.startswith("tunnel") or path == "direct_tls":
         sc["seg"] = {"mode": "whole"}
         sc["connects"] = []
+    if any(isinstance(x.get("body"), dict) and x["body"].get("tag", 0) >= 1000 for x in exchanges):
+        sc["seg"] = {"mode": "whole"}  # (a 70 kB body delivered byte by byte would only exhaust the step budget)
     if rng.random() < 0.25:
         sc["close_without_probe"] = True
     if rng.random() < 0.1:
@@ -214,8 +218,10 @@ def cases(seed: int, k: int, tier: str):
             sc["step_faults"].append({"at": rng.randrange(0, 40), "kind": rng.choice(["reset", "timeout", "eof", "intr", "epipe", "eio", "eprototype", "refused"]), "after": rng.choice([0, "half"])})
         if rng.random() < 0.12:
             # a wait between attempts, with an interrupt or an unusable header value in it: first answer asks to come back later
-            ex0 = {"k": "resp", "status": rng.choice([429, 503, 413]), "headers": [["Retry-After", rng.choice(["1", "2", "soon"])]], "body": "later", "framing": rng.choice(["cl", "chunked"])}
+            ex0 = {"k": "resp", "status": rng.choice([429, 503, 413]), "headers": [["Retry-After", rng.choice(["1", "2", "soon"])]], "body": rng.choice(["later", "later", {"tag": 6000}]), "framing": rng.choice(["cl", "chunked"])}
             sc["exchanges"].insert(rng.choice([0, 0, 1]) if sc["exchanges"] else 0, ex0)
+            if isinstance(ex0["body"], dict):
+                sc["seg"] = {"mode": "whole"}
             if rng.random() < 0.7:
                 sc["config"]["retries"] = rng.choice(["default", 2, {"total": 3, "backoff_factor": 1.0}])
             for o in sc["ops"]:
